@@ -213,7 +213,10 @@ def main(modname, argv):
         total.fail(key, {'job': label}, payload[-4000:])
     viol = 0
     matched_open = set()
-    rdir = os.path.join(VERIF, 'replays', pid)
+    # runs against a scratch copy of the repository (mutant testing) never touch the real evidence
+    scratch = os.path.realpath(os.environ.get('YAQL_VERIF_REPO', '/repo')) != '/repo'
+    outroot = os.path.join(VERIF, '.scratch') if scratch else VERIF
+    rdir = os.path.join(outroot, 'replays', pid)
     for key in sorted(total.failures, key=lambda k: (total.failures[k].size, k)):
         f = total.failures[key]
         if key in open_keys:
@@ -269,8 +272,8 @@ def main(modname, argv):
         'wall_s': round(wall, 2),
         'violations': viol,
     }
-    os.makedirs(os.path.join(VERIF, 'evidence'), exist_ok=True)
-    evp = os.path.join(VERIF, 'evidence', pid + '.json')
+    os.makedirs(os.path.join(outroot, 'evidence'), exist_ok=True)
+    evp = os.path.join(outroot, 'evidence', pid + '.json')
     tmp = evp + '.tmp%d' % os.getpid()
     with open(tmp, 'w') as fh:
         json.dump(ev, fh, indent=1, default=repr, sort_keys=True)
